@@ -100,7 +100,9 @@ def _events(args):
                 continue
         ws, we = window if window else (0, G)
         ev.append(["alt", list(R), Vj, ws, we, E.outcome(lambda: list(str(
-            (vis[0] if len(vis) == 1 and rnd.random() < 0.5 else coll).alternative_genomic_sequence)))])
+            (vis[0] if len(vis) == 1 and rnd.random() < 0.5 else coll).alternative_genomic_sequence))),
+            # field 7: every variant's own account of what it does to the length (<<start, end, length_difference>>)
+            E.outcome(lambda: [[v.start, v.end, v.length_difference] for v in vis])])
         loc = AbstractInterval.liftover_location_to_seq_chunk_parent(E.make_loc(blocks, st), par)
         for use_coll in ([False, True] if len(vis) == 1 else [True]):
             obj = coll if use_coll else vis[0]
